@@ -181,6 +181,29 @@ func init() {
 		return []cty.Value{a, kvNull(r, t)}
 	}
 	sets2 := func(r *rng.R) []cty.Value {
+		if r.Chance(12) { // element types that unify only unsafely, or only through an untyped null
+			num := func(ss ...string) []cty.Value {
+				var vs []cty.Value
+				for _, x := range ss {
+					vs = append(vs, cty.StringVal(x))
+				}
+				return vs
+			}
+			switch r.Intn(3) {
+			case 0:
+				return []cty.Value{
+					cty.SetVal([]cty.Value{cty.ListVal([]cty.Value{cty.NumberIntVal(1), cty.NumberIntVal(2)})}),
+					cty.SetVal([]cty.Value{cty.SetVal(num("1", "2")), cty.SetVal(num("3"))})}
+			case 1:
+				return []cty.Value{
+					cty.SetVal([]cty.Value{cty.NullVal(cty.DynamicPseudoType)}),
+					cty.SetVal(num("a", "b"))}
+			default:
+				return []cty.Value{
+					cty.SetVal([]cty.Value{cty.ListVal(num("x"))}),
+					cty.SetVal([]cty.Value{cty.SetVal([]cty.Value{cty.True})})}
+			}
+		}
 		e := primT(r)
 		vs := []cty.Value{kv(r, setOf(e))}
 		for i, n := 0, 1+r.Intn(2); i < n; i++ {
@@ -514,6 +537,13 @@ func init() {
 			default:
 				return intv(r, -6, 9)
 			}
+		}
+		if r.Chance(15) { // a step with no finite binary expansion, held at full precision: each element is the previous one plus the step
+			k := r.Intn(4)
+			step := cty.MustParseNumberVal([]string{"0.1", "0.3", "-0.7", "0.05"}[k])
+			start := []cty.Value{cty.NumberIntVal(0), cty.NumberIntVal(1), cty.NumberIntVal(2), cty.MustParseNumberVal("0.2")}[k]
+			end := []cty.Value{cty.NumberIntVal(2), cty.NumberIntVal(5), cty.NumberIntVal(-6), cty.NumberIntVal(1)}[k]
+			return []cty.Value{start, end, step}
 		}
 		vs := make([]cty.Value, r.Intn(5))
 		for i := range vs {
